@@ -8,7 +8,7 @@ ASSUMPTIONS = ["instants valid, 1901..2099, seconds 0..60", "durations whole sec
 CK = ['--bounds-check', '--pointer-check', '--div-by-zero-check']
 def ob(name, defs, **kw):
     o = dict(name=name, src='h_strpf.c', defs=defs, units=['src/instant.c'], incl=['src/dt-strpf.c'], replay_units='all', unwind=12,
-             unwindset={'harness.0': 65, 'sym_load.*': 17}, solver='kissat', timeout=600, mem_gb=6, checks=CK)
+             unwindset={'harness.0': 65, 'sym_load.*': 17}, solver='kissat', slice_formula=True, timeout=600, mem_gb=6, checks=CK)
     o.update(kw)
     return o
 # idiff_strp(): the digit loops (.0, .3) nest inside the backward gotos more_date (.1 W, .2 D) and more_time (.4 H, .5 M, .6 S); each
